@@ -34,6 +34,15 @@ Proof.
   - apply Good_init.
 Qed.
 
+Lemma hist_cancelled_le tr1 e1 tr2 e2 tr3 :
+  run_trace c g (init g) ps = tr1 ++ e1 :: tr2 ++ e2 :: tr3 ->
+  forall y, In y (cancelled (e_post e1)) -> In y (cancelled (e_pre e2)).
+Proof.
+  apply (run_trace_later c g (fun a b => forall y, In y (cancelled a) -> In y (cancelled b)) W); auto.
+  - intros s p G Vp. destruct (poll_mono c g s p W (i2_inv g _ (proj1 G)) Vp) as (_ & B & _). exact B.
+  - apply Good_init.
+Qed.
+
 (** no submission, in any later poll, of a failed/cancelled node or of one of its descendants *)
 Theorem C02_no_submit_proof tr1 e1 tr2 e2 tr3 u x k sc res :
   run_trace c g (init g) ps = tr1 ++ e1 :: tr2 ++ e2 :: tr3 ->
@@ -195,19 +204,9 @@ Proof.
       apply in_app_iff in Hin. destruct Hin as [Hin|[<-|[]]]; [|rewrite Cn in Hp; destruct Hp].
       apply in_split in Hin. destruct Hin as (l1 & l2 & ->).
       assert (E' : run_trace c g (init g) ps = l1 ++ e' :: l2 ++ e :: tr2) by (rewrite E, <- app_assoc; reflexivity).
-      pose proof (hist_fc_le _ _ _ _ _ E' x (or_intror Hp)) as F1.
-      pose proof (fc_le_poll c g (e_pre e) (e_pin e) W G0 V0) as L. rewrite E0 in L. cbn [fst] in L.
       pose proof (poll_mono c g (e_pre e) (e_pin e) W (i2_inv g _ (proj1 G0)) V0) as PM. cbv zeta in PM.
       rewrite E0 in PM. cbn [fst] in PM. destruct PM as (_ & PMc & _).
-      (* cancelled itself is monotone along the history *)
-      assert (Hc' : In x (cancelled (e_post e))).
-      { clear F1 L. revert Hp. 
-        assert (Mono : forall a b, (forall y, In y (cancelled a) -> In y (cancelled b)) -> True) by auto.
-        pose proof (run_trace_later c g (fun a b => forall y, In y (cancelled a) -> In y (cancelled b)) W) as RL.
-        intros Hp. apply PMc. eapply (RL (fun s y H => H)); eauto.
-        - intros a b d H1 H2 y Hy. auto.
-        - intros s0 p0 G V0'. destruct (poll_mono c g s0 p0 W (i2_inv g _ (proj1 G)) V0') as (_ & B & _). exact B.
-        - apply Good_init. }
+      pose proof (PMc x (hist_cancelled_le _ _ _ _ _ E' x Hp)) as Hc'.
       rewrite Cn in Hc'. destruct Hc'.
     + exists e', w. auto.
 Qed.
